@@ -19,6 +19,8 @@ Theorems (all over Model/Routing.lean applied to the tables regenerated from /re
   metadata_served_from_cache / metadata_autocreate_decision / metadata_autocreate_unknown / topicsToRefresh_spec / refreshDone_spec
                             roundTrip's metadata arm: served from the cache unless auto-creation meets an unknown topic; what it then waits for
   layout_sources            makeLayout/makePartitions field copies (regenerated tables) agree with the model's
+  layout_omits_internal     makeLayout never lists an internal topic, so refreshMetadata cannot see one appear (observation)
+  negotiated_unlisted       an API the broker does not list: version 0 if the client supports it, else refused client-side
   parts_cover_splitters     every Splitter type of the source has a split model (regenerated table, decide)
   split_resources_partition / split_resources_target / split_brokers_cover   DescribeConfigs and ListGroups parts: every resource / broker exactly once, at the right broker
 -/
@@ -588,5 +590,54 @@ theorem route_leader_src (c : Cluster) (tps : List (String × List Int)) (b : In
     ∀ tn ps, (tn, ps) ∈ tps → ∀ p ∈ ps, LedBy c tn p b := by
   rw [leaderAll_src] at h
   exact route_leader c tps b hwf h
+
+/-! ## internal topics and unlisted APIs -/
+
+section misc
+open KV.RoundTrip KV.Lemmas.Routing
+
+theorem layout_topics_foldl_other (l : List MTopic) (acc : List (String × Topic)) (k : String)
+    (h : ∀ t ∈ l, t.internal = false → t.name ≠ k) :
+    (l.foldl (fun acc t => if t.internal then acc else ainsert acc t.name ⟨t.name, t.error, makePartitions t.partitions⟩) acc).lookup k
+      = acc.lookup k := by
+  induction l generalizing acc with
+  | nil => rfl
+  | cons t ts ih =>
+    simp only [List.foldl_cons]
+    rw [ih _ (fun x hx => h x (List.mem_cons_of_mem _ hx))]
+    by_cases hi : t.internal = true
+    · simp [hi]
+    · have hf : t.internal = false := by simpa using hi
+      simp only [hf, Bool.false_eq_true, ↓reduceIte]
+      exact lookup_ainsert_other acc t.name k _ (fun hk => h t List.mem_cons_self hf hk.symm)
+
+/-- **the layout never lists an internal topic** (makeLayout skips `IsInternal`), so `refreshMetadata` can never see
+one appear: a CreateTopics / auto-creating Metadata answer that names an internal topic without error makes roundTrip
+wait until the caller's context ends (observation replayed on the real code; outside C12's clauses) -/
+theorem layout_omits_internal (m : MResponse) (t : MTopic) (_ht : t ∈ m.topics) (_hint : t.internal = true)
+    (hnd : ∀ u ∈ m.topics, u.internal = false → u.name ≠ t.name) :
+    (makeLayout m).topics.lookup t.name = none ∧ refreshDone (makeLayout m) [t.name] = false := by
+  have h1 : (makeLayout m).topics.lookup t.name = none := by
+    simp only [makeLayout]
+    rw [layout_topics_foldl_other m.topics [] t.name hnd]
+    rfl
+  exact ⟨h1, by simp [refreshDone, h1]⟩
+
+/-- an API the broker does not list at all: the connection's version map has no entry, the request is written at
+version 0 when the client supports version 0 and refused client-side otherwise (no range was advertised, so the
+property demands nothing) -/
+theorem negotiated_unlisted (client : Nat → Int × Int) (table : List (Nat × Int × Int)) (key : Nat)
+    (h : ∀ e ∈ table, e.1 ≠ key) :
+    requestVersion client (negotiate client table) key
+      = if 0 < (client key).1 ∨ (client key).2 < 0 then none else some 0 := by
+  have hv : negotiatedVersion (negotiate client table) key = 0 := by
+    unfold negotiatedVersion negotiate lookupD
+    rw [negotiate_foldl_other client table key h]
+    rfl
+  unfold requestVersion
+  simp only [hv]
+  by_cases h1 : 0 < (client key).1 <;> by_cases h2 : (client key).2 < 0 <;> simp [h1, h2] <;> omega
+
+end misc
 
 end KV.Props.C12
